@@ -129,6 +129,10 @@ impl Api {
                 let dep = c.to_dep();
                 let sl: Stream<Lazy<i64>> = s.map(lambda1(move |_: &i64| c.sample_lazy(), vec![dep]));
                 self.h.insert(x.to_string(), H::S(sl.map(|l: &Lazy<i64>| l.run()))); ok() }
+            ["snapmapc", x, s, c, k] => { fresh!(x); let (s, c, k) = (need!(self.s(s)), need!(self.c(c)), need!(num(k)));
+                // a mapped cell built inside a propagation callback and sampled there: f(value of c in this transaction)
+                let dep = c.to_dep();
+                self.h.insert(x.to_string(), H::S(s.map(lambda1(move |_: &i64| c.map(move |v: &i64| f1(k, *v)).sample(), vec![dep])))); ok() }
             ["gate", x, s, c] => { fresh!(x); let (s, c) = (need!(self.s(s)), need!(self.c(c))); self.h.insert(x.to_string(), H::S(s.gate(&c.map(|v: &i64| even(*v))))); ok() }
             ["hold", x, s, k] => { fresh!(x); let (s, k) = (need!(self.s(s)), need!(num(k))); self.h.insert(x.to_string(), H::C(s.hold(k))); ok() }
             ["holdlazy", x, s, z] => { fresh!(x); let s = need!(self.s(s)); let z = match self.h.get(*z) { Some(H::Z(z, _)) => z.clone(), _ => return "skip".into() };
@@ -177,8 +181,10 @@ impl Api {
                 self.h.insert(x.to_string(), H::S(Cell::switch_s(&cs))); ok() }
             ["switchlatec", x, s, base, op] => { fresh!(x); let (s, base, op) = (need!(self.s(s)), need!(self.s(base)), need!(num(op)));
                 // cells built on demand: every event k of `s` builds, inside the transaction, a fresh cell on `base`
-                let dep = base.to_dep();
-                let sc: Stream<Cell<i64>> = s.map(lambda1(move |k: &i64| { let k = *k; base.map(move |v: &i64| f2(op, *v, k)).hold(k) }, vec![dep]));
+                // (the fresh cell sits on a two-input node built during propagation, one input of which never fires)
+                let quiet: Stream<i64> = self.ctx.new_stream();
+                let deps = vec![base.to_dep(), quiet.to_dep()];
+                let sc: Stream<Cell<i64>> = s.map(lambda1(move |k: &i64| { let k = *k; base.or_else(&quiet).map(move |v: &i64| f2(op, *v, k)).hold(k) }, deps));
                 let cc = sc.hold(self.ctx.new_cell(0));
                 self.h.insert(x.to_string(), H::C(Cell::switch_c(&cc))); ok() }
             ["switchc", x, sel, cands @ ..] => { fresh!(x); let sel = need!(self.c(sel)); if cands.is_empty() { return "skip".into(); }
@@ -199,6 +205,21 @@ impl Api {
                 let li = if let Some(s) = self.s(x) { if weak { s.listen_weak(k) } else { s.listen(k) } }
                     else if let Some(c) = self.c(x) { if weak { c.listen_weak(k) } else { c.listen(k) } } else { return "skip".into() };
                 self.h.insert(l.to_string(), H::L(li)); ok() }
+            ["latelisten", l, s, base, op] => { fresh!(l); let (s, base, op) = (need!(self.s(s)), need!(self.s(base)), need!(num(op)));
+                // FRP built inside a listener handler, during propagation: on the first event k of `s` a two-input node on `base`
+                // (its other input never fires), a map and a listener are built; they must see `base`'s event of that very transaction
+                let quiet: Stream<i64> = self.ctx.new_stream();
+                let log = self.log.clone(); let name = l.to_string();
+                let keep: Arc<Mutex<Vec<Listener>>> = Arc::new(Mutex::new(vec![]));
+                let outer = s.once().listen(move |k: &i64| {
+                    let k = *k;
+                    let m = base.or_else(&quiet).map(move |v: &i64| f2(op, *v, k));
+                    let (log, name) = (log.clone(), name.clone());
+                    let li = m.listen(move |v: &i64| log.lock().unwrap().push((name.clone(), *v)));
+                    keep.lock().unwrap().push(li);
+                });
+                std::mem::forget(outer);      // a strong listener: the context keeps it; the script cannot unlisten it
+                self.h.insert(l.to_string(), H::P); ok() }
             ["unlisten", l] => match self.h.get(*l) { Some(H::L(li)) => { li.unlisten(); ok() } _ => "skip".into() },
             ["send", s, v] => { let v = need!(num(v)); match self.h.get(*s) { Some(H::SS(x)) => { x.send(v); ok() } Some(H::CS(x)) => { x.send(v); ok() } _ => "skip".into() } }
             ["sample", c] => { let c = need!(self.c(c)); format!("v={}", c.sample()) }
